@@ -174,6 +174,8 @@ def check_trail(tree, where):
         todo.extend(deps_of(refs[i]))
     return None
 
+TWIN_OF = {}    # recipe name -> name of the recipe whose content it copies (set per case)
+
 def _verify_workspace(proj, info, executed, meta, stats, provenance_seen, may_miss=False, no_audit=False):
     """info = bobq query with detail+bid."""
     from bob.utils import hashDirectory
@@ -266,8 +268,10 @@ def _verify_workspace(proj, info, executed, meta, stats, provenance_seen, may_mi
                 if m.get(k) != v:
                     # a downloaded or shared result carries the trail of whoever produced the artifact:
                     # with identical recipes under two names (equal Build-Ids) that may be the twin
+                    # (the twin may have been identical only in the project state of the uploader)
                     if k == "recipe" and label == "dist" and s.get("prov") in ("downloaded", "shared") \
-                            and m.get(k) in recipes_of_vid.get(s["vid"], ()):
+                            and (m.get(k) in recipes_of_vid.get(s["vid"], ())
+                                 or TWIN_OF.get(m.get(k), m.get(k)) == TWIN_OF.get(ent["recipe"], ent["recipe"])):
                         stats.inc("probe_trail_of_identical_twin_recipe")
                         continue
                     return "%s: meta.%s is %r, expected %r" % (where, k, m.get(k), v)
@@ -275,7 +279,8 @@ def _verify_workspace(proj, info, executed, meta, stats, provenance_seen, may_mi
             # carry another path of the same package, so only root and package name are compared)
             mp = (m.get("package") or "").split("/")
             twin_ok = (label == "dist" and s.get("prov") in ("downloaded", "shared")
-                       and mp[-1] in recipes_of_vid.get(s["vid"], ()))
+                       and (mp[-1] in recipes_of_vid.get(s["vid"], ())
+                            or TWIN_OF.get(mp[-1], mp[-1]) == TWIN_OF.get(ent["recipe"], ent["recipe"])))
             if m.get("package") not in paths_of_ws[s["ws"]] and not twin_ok \
                     and not (mp[0] == path.split("/")[0] and mp[-1] == path.split("/")[-1]):
                 return "%s: meta.package is %r, expected a path of package %s" % (where, m.get("package"), sorted(paths_of_ws[s["ws"]]))
@@ -386,6 +391,8 @@ def run_case(case):
         os.makedirs(arch)
         projs = {"A": os.path.join(top, "wa", "proj"), "B": os.path.join(top, "other", "deeper", "proj")}
         model = dict(case["model"])
+        TWIN_OF.clear()
+        TWIN_OF.update({n: r["label"] for n, r in model["recipes"].items() if r.get("label")})
         model["default_extra"] = {"archive": {"backend": "file", "path": arch}, "share": {"path": store}}
         hist = [model]
         files = {}
